@@ -42,7 +42,9 @@ type unitCase struct {
 	K     int     `json:"media"`
 }
 
-func (c unitCase) key() string { return c.Spec.key() + string([]byte{byte('0' + c.N), byte('0' + c.K)}) + c.Style }
+func (c unitCase) key() string {
+	return c.Spec.key() + string([]byte{byte('0' + c.N), byte('0' + c.K)}) + c.Style
+}
 
 func (c unitCase) features() []string {
 	f := c.Spec.features()
